@@ -32,7 +32,7 @@ P_FIELD, P_CALL, P_INNER, P_OUTER, P_GLOBAL, P_OWN = 3, 5, 7, 11, 13, 2
 ALLP = P_FIELD * P_CALL * P_INNER * P_OUTER * P_GLOBAL * P_OWN
 TARGETS = ['int', 'hasconv', 'plain', 'sublist']
 SHAPES = ['direct', 'list', 'optional', 'dict_value', 'tuple_var', 'union', 'struct', 'nested_dc', 'inherited', 'inherited_own',
-          'list_any', 'dict_any', 'tuple_any']
+          'list_any', 'dict_any', 'tuple_any', 'generic_subscripted']
 FORMS = ['callable', 'sequence', 'mapping']
 INNER_MODES = [None, 'own', 'inherited', 'unrelated']      # 'unrelated': the class has custom= handlers, but none for the target type
 
@@ -180,7 +180,7 @@ def shape_type(pane, X, shape):
 
 def expected_prime(target, srcs, shape):
     """srcs: dict of booleans F, C, I, O, G.  Returns the prime that must mark the result (1 = unmarked built-in), or 'TypeError'."""
-    if srcs['F'] and shape == 'direct':
+    if srcs['F'] and shape in ('direct', 'generic_subscripted'):
         return P_FIELD
     if srcs['C']:
         return P_CALL
@@ -207,7 +207,7 @@ def run_cell(pane, world, res, target, shape, form, mask, inner_mode, only_dir=N
     call_unrelated = bool(mask & 16)
     if call_unrelated and srcs['C']:
         return
-    if srcs['F'] and shape not in ('direct',):
+    if srcs['F'] and shape not in ('direct', 'generic_subscripted'):
         return
     any_shape = shape.endswith('_any')
     # ---- reset global state
@@ -228,7 +228,7 @@ def run_cell(pane, world, res, target, shape, form, mask, inner_mode, only_dir=N
             # handlers that answer NotImplemented for X (they only know `bytes`): must defer to the dataclasses further out
             inner_kw['custom'] = world.handler(bytes, P_INNER, form)
         Base = type('Base', (pane.PaneBase,), {'__annotations__': {}, '__module__': 'mc.generated'}, **base_kw)
-        if shape in ('nested_dc', 'inherited', 'inherited_own'):
+        if shape in ('nested_dc', 'inherited', 'inherited_own', 'generic_subscripted'):
             ftype, wrap, unwrap = X, (lambda d: d), (lambda r: r)
         else:
             ftype, wrap, unwrap = shape_type(pane, X, shape)
@@ -242,6 +242,15 @@ def run_cell(pane, world, res, target, shape, form, mask, inner_mode, only_dir=N
             Inner = type('Inner', (Base,), {'__annotations__': {'f': Leaf}, '__module__': 'mc.generated'}, **inner_kw)
             wrap0, unwrap0 = wrap, unwrap
             wrap, unwrap = (lambda d: {'f': wrap0(d)}), (lambda r: unwrap0(r.f))
+        elif shape == 'generic_subscripted':
+            # the converting class is a SUBSCRIPTED generic dataclass (its fields are re-made with the type variables replaced)
+            from mc.classes_gen import new_class
+            TV = t.TypeVar('TV')
+            gns = dict(ns)
+            gns['__annotations__'] = dict(ns['__annotations__'], g=TV)
+            gns['g'] = 'g'
+            GInner = new_class('Inner', (Base, t.Generic[TV]), gns, **inner_kw)
+            Inner = GInner[str]
         elif shape in ('inherited', 'inherited_own'):
             # the field is declared on a parent; the converting class is a subclass (with / without its own custom=)
             Parent = type('Parent', (Base,), dict(ns), **inner_kw)
@@ -292,7 +301,7 @@ def run_cell(pane, world, res, target, shape, form, mask, inner_mode, only_dir=N
             val = world.make_value(target, ALLP)
             if shape == 'nested_dc':
                 inner_obj = Inner.make_unchecked(f=Leaf.make_unchecked(f=val))
-            elif any_shape or shape not in ('direct', 'inherited', 'inherited_own'):
+            elif any_shape or shape not in ('direct', 'inherited', 'inherited_own', 'generic_subscripted'):
                 container = {'list': lambda: [val, val], 'optional': lambda: val, 'dict_value': lambda: {'k': val}, 'tuple_var': lambda: (val,),
                              'union': lambda: val, 'struct': lambda: {'k': val}, 'list_any': lambda: [val], 'dict_any': lambda: {'k': val},
                              'tuple_any': lambda: (val,)}[shape]()
@@ -378,6 +387,60 @@ def run_mapping_exact(pane, world, res):
                                f"(a mapping entry matches only the exact unparameterised type)", {'mapping_exact': True, 'case': label}, 2)
 
 
+def run_histories(pane, world, res):
+    """(a) one mapping object passed as custom= repeatedly while the application changes its entries;
+       (b) three nesting levels whose outermost and innermost dataclass share one handler object."""
+    from pane.convert import make_converter
+    m3, m5, m7 = world.mark(int, 3), world.mark(int, 5), world.mark(int, 7)
+    registry: t.Dict[t.Any, t.Any] = {}
+    steps = [('add int->x5', lambda: registry.__setitem__(int, m5), 5), ('replace int->x7', lambda: registry.__setitem__(int, m7), 7),
+             ('add unrelated bytes', lambda: registry.__setitem__(bytes, world.mark(int, 3)), 7), ('delete int', lambda: registry.__delitem__(int), 1),
+             ('add int->x3', lambda: registry.__setitem__(int, m3), 3)]
+    for T, wrapd, unwrap in ((int, lambda d: d, lambda r: r), (t.List[int], lambda d: [d], lambda r: r[0]), (t.Dict[str, int], lambda d: {'k': d}, lambda r: r['k'])):
+        make_converter.cache.clear()
+        registry.clear()
+        hist = []
+        for label, act, want in steps:
+            act()
+            hist.append(label)
+            res['states'] += 1
+            res['evals'] += 1
+            res['validated'] += 1
+            res['transitions'] += 1
+            res['nontrivial'].add(f"registry|{T}|{label}")
+            try:
+                got = unwrap(pane.from_data(wrapd(1), T, custom=registry))
+            except Exception as e:  # noqa
+                got = f"{type(e).__name__}: {core.sstr(e, 60)}"
+            if got != want:
+                core.add_violation(res, {'kind': 'stale_mapping_handlers', 'step': label},
+                                   f"one mapping object passed as custom= across calls, after {hist}: from_data(1, {T!r}) gave {got!r}, "
+                                   f"its current entries select x{want}", {'histories': True, 'what': 'registry'}, len(hist))
+                break
+    # (b) Outer > Mid > Inner; Outer and Inner use the SAME handler object, Mid a different one: the nearest (Inner's) wins
+    for form in FORMS:
+        make_converter.cache.clear()
+        shared = world.handler(int, P_OUTER, form)
+        mid_h = world.handler(int, P_INNER, form)
+        Inner = type('Inner3', (pane.PaneBase,), {'__annotations__': {'f': int}, '__module__': 'mc.generated'}, custom=shared)
+        Mid = type('Mid3', (pane.PaneBase,), {'__annotations__': {'inner': Inner, 'm': int}, '__module__': 'mc.generated'}, custom=mid_h)
+        Outer = type('Outer3', (pane.PaneBase,), {'__annotations__': {'mid': Mid, 'o': int}, '__module__': 'mc.generated'}, custom=shared)
+        res['states'] += 1
+        res['evals'] += 1
+        res['validated'] += 1
+        res['nontrivial'].add(f"three_level|{form}")
+        try:
+            r = pane.from_data({'mid': {'inner': {'f': 1}, 'm': 1}, 'o': 1}, Outer)
+            got = (r.mid.inner.f, r.mid.m, r.o)
+        except Exception as e:  # noqa
+            got = f"{type(e).__name__}: {core.sstr(e, 60)}"
+        want = (P_OUTER, P_INNER, P_OUTER)
+        if got != want:
+            core.add_violation(res, {'kind': 'three_level_shared_handler', 'form': form},
+                               f"Outer > Mid > Inner where Outer and Inner share one handler object ({form} form): primes (inner.f, mid.m, outer.o) = "
+                               f"{got!r}, expected {want!r} (the nearest enclosing dataclass wins)", {'histories': True, 'what': 'three_level'}, 3)
+
+
 def run_shard(shard, tier):
     pane = core.import_pane()
     warnings.simplefilter('ignore')
@@ -385,6 +448,7 @@ def run_shard(shard, tier):
     world = World(pane)
     if shard.get('mapping_exact'):
         run_mapping_exact(pane, world, res)
+        run_histories(pane, world, res)
         return res
     target, shape = TARGETS[shard['t']], SHAPES[shard['s']]
     for form in FORMS:
@@ -408,9 +472,10 @@ def replay(cell):
     warnings.simplefilter('ignore')
     res = core.new_result()
     world = World(pane)
-    if cell.get('mapping_exact'):
+    if cell.get('mapping_exact') or cell.get('histories'):
         run_mapping_exact(pane, world, res)
+        run_histories(pane, world, res)
         out = [v for lst in res['violations'].values() for v in lst]
-        return [v for v in out if v['cell'].get('case') == cell.get('case')] or out
+        return [v for v in out if v['cell'] == cell] or out
     run_cell(pane, world, res, cell['t'], cell['s'], cell['form'], cell['mask'], cell['inner'])
     return [v for lst in res['violations'].values() for v in lst]
